@@ -294,6 +294,8 @@ def judge(fam, case_key, classes, texts, verdict, obs, fnd, stats, strict_after,
     lo, hi = verdict["lo"], verdict["hi"]
     # the grammar position names the shape: what was expected after which two tokens (classes), not the individual input
     key_shape = "after `%s` expected %s" % (" ".join(classes[max(0, hi - 3):hi - 1]), verdict["exp"])
+    if verdict["exp"] == "Module":
+        key_shape = "at module level expected a declaration"
     if alpha_accepts:
         if af["ok"]:
             fnd.add("syntax-alpha-accepts-invalid", key_shape, example("R: invalid; the first generation compiles it"))
